@@ -476,7 +476,10 @@ def host_colocation(ctx):
             short = parent_fn(fn.id).split("::")[-1]
             ordn = sum(1 for r in ctx.records if r["rule"] == ctx.rule and r["instance"].startswith("host-colocation|%s#" % short))
             other = sorted(u for u in used if u != home)
-            if not other:
+            if not used and re.search(r"\bclone\(", show(fn.deep(c.args[1]))):
+                # a derived Clone keeps the allocator of what it copies: the payload stays wherever the source lives
+                ctx.bad("host-colocation|%s|%s-vs-clone" % (short, home[:16]), fn.where(c.block), "%s puts the handle of a host value on `%s` but builds the payload with a plain clone(), which keeps the source's allocator: a value promoted out of a frame region keeps its program, arguments, environment and captured output on the frame, where the next reset recycles them" % (short, home))
+            elif not other:
                 ctx.ok("host-colocation|%s#%d" % (short, ordn + 1), fn.where(c.block), "handle and payload on `%s`" % home)
             else:
                 ctx.bad("host-colocation|%s|%s-vs-%s" % (short, home[:16], other[0][:16]), fn.where(c.block), "%s builds a host value whose handle lives on `%s` while its payload is allocated on `%s`: HostHandle::promote looks only at the handle, so the payload is never copied off that arena - a captured output / configured text on the frame behind a persistent handle reads recycled memory after the next frame reset" % (short, home, other[0]))
@@ -644,11 +647,15 @@ def r5_promotion_complete(ctx):
     ctx.touch(cp)
     # pass-through aggregates
     sw = {}
+    weak = {}
     for S2 in sorted(cp.live):
         if cp.blocks[S2]["t"]["k"] == "switch":
             si2 = cp.switch_info(S2)
             if si2["kind"] == "call":
                 sw[S2] = (si2["callee"] or "").split("::")[-1]
+                if si2.get("threaded"):
+                    # `a && f(x)`: the outcome the short-circuit constant also produces says nothing about f(x)
+                    weak[S2] = si2.get("weak_label")
     for b in sorted(cp.live):
         for s in cp.blocks[b]["s"]:
             rv = s["rv"]
@@ -657,7 +664,7 @@ def r5_promotion_complete(ctx):
                 prod = [d[0] for (bi, k, d) in origins(cp, rv["ops"][0], 6) if k == "call"]
                 if any(p.endswith("alloc_str") for p in prod):
                     continue  # a fresh pooled copy
-                guards = {sw[S2]: al for S2, al in cp.constraints(b) if S2 in sw}
+                guards = {sw[S2]: al for S2, al in cp.constraints(b) if S2 in sw and not (S2 in weak and list(al) == [weak[S2]])}
                 if rv["variant"] == "Borrowed":
                     ok = guards.get("contains_ptr") == [0] and guards.get("contains") == [0]
                     if ok:
